@@ -77,6 +77,10 @@ type Sim struct {
 
 	observers []Observer
 	park      *parkCtl
+	// kv leaf collisions in the reference history (see kvCollisionBefore)
+	kvScanned  basics.Round
+	kvCollAt   basics.Round
+	kvCollWhat string
 	stats     map[string]int64
 	stateDg   map[string]bool
 	viol      *kernel.Violation
@@ -285,6 +289,12 @@ func (s *Sim) afterReopen(why string) {
 			delete(s.blocks, r)
 		}
 		s.latest = p
+		if s.kvScanned > p {
+			s.kvScanned = p
+		}
+		if s.kvCollAt > p {
+			s.kvCollAt, s.kvCollWhat = 0, ""
+		}
 	}
 	// blocks of the prefix still served must be the ones that were added
 	for r := p; r > 0 && r+basics.Round(4) > p; r-- {
@@ -502,7 +512,8 @@ func (s *Sim) run() {
 	s.pool = execpool.MakeBacklog(execpool.MakePool(s), 0, execpool.LowPriority, s)
 	s.park = newParkCtl()
 	curPark = s.park
-	defer func() { curPark = nil }()
+	curSim = s
+	defer func() { curPark = nil; curSim = nil }()
 	if err := s.open(); err != nil {
 		s.harness = "OpenLedger: " + err.Error()
 		return
@@ -698,6 +709,7 @@ func (Engine) Name() string { return "ledgersim" }
 
 var tmpRoot string
 var runCounter int
+var curSim *Sim // the run in progress (one per process)
 
 func scratchRoot() string {
 	if tmpRoot == "" {
